@@ -23,6 +23,9 @@ theorem fresh_incremental_only_same_generation (i : VIn) (hf : i.fresh = true) (
     i.hdrSalt = i.ltx.salt ∧ (verify i).idx = i.ltx.endIdx ∧ (verify i).useHdrSalt = false := by
   unfold verify at hinc ⊢
   simp only [hp, he, hf] at hinc ⊢
+  by_cases hu : i.unresolved = true
+  · simp [hu] at hinc
+  simp only [hu] at hinc ⊢
   by_cases h1 : i.ltx.endIdx > i.frames.length
   · simp [h1] at hinc
   · simp only [h1, if_false] at hinc ⊢
@@ -57,7 +60,7 @@ theorem fresh_restart_or_truncation_snapshots (i : VIn) (hf : i.fresh = true) (h
     rcases h with h | h
     · exact absurd this.1 h
     · unfold verify at hv
-      simp [hp, he, h] at hv
+      by_cases hu : i.unresolved = true <;> simp [hp, he, h, hu] at hv
 
 /-! ### Soundness against the generation world -/
 
@@ -112,8 +115,8 @@ theorem unseen_last (gs : List Gen) (c k : Nat) (l : Gen) (hc : c + 1 = gs.lengt
 theorem fresh_incremental_sound (gs : List Gen) (hd : SaltsDistinct gs) (c k : Nat) (g l : Gen)
     (hc : gs[c]? = some g) (hl : gs.getLast? = some l)
     (frames : List PFrame) (pages : List (Nat × Nat))
-    (hinc : (verify ⟨false, ⟨g.salt, k, pages⟩, l.salt, frames, false, true⟩).snapshot = false) :
-    let out := verify ⟨false, ⟨g.salt, k, pages⟩, l.salt, frames, false, true⟩
+    (hinc : (verify ⟨false, ⟨g.salt, k, pages⟩, l.salt, frames, false, true, false⟩).snapshot = false) :
+    let out := verify ⟨false, ⟨g.salt, k, pages⟩, l.salt, frames, false, true, false⟩
     continued gs out.idx (if out.useHdrSalt then l.salt else g.salt) = unseen gs c k := by
   intro out
   obtain ⟨h1, h2, h3⟩ := fresh_incremental_only_same_generation _ rfl rfl rfl hinc
@@ -131,7 +134,7 @@ theorem fresh_incremental_sound (gs : List Gen) (hd : SaltsDistinct gs) (c k : N
 theorem missed_generation_implies_snapshot (gs : List Gen) (hd : SaltsDistinct gs) (c k : Nat) (g l : Gen)
     (hc : gs[c]? = some g) (hl : gs.getLast? = some l) (hne : c + 1 ≠ gs.length)
     (frames : List PFrame) (pages : List (Nat × Nat)) :
-    (verify ⟨false, ⟨g.salt, k, pages⟩, l.salt, frames, false, true⟩).snapshot = true := by
+    (verify ⟨false, ⟨g.salt, k, pages⟩, l.salt, frames, false, true, false⟩).snapshot = true := by
   apply fresh_restart_or_truncation_snapshots _ rfl rfl rfl
   left
   intro hs
@@ -143,8 +146,8 @@ theorem missed_generation_implies_snapshot (gs : List Gen) (hd : SaltsDistinct g
 theorem running_own_checkpoint_sound (gs : List Gen) (g n : Gen) (hlast : gs.getLast? = some g)
     (frames : List PFrame) (pages : List (Nat × Nat)) (se : Bool)
     (hsalt : n.salt ≠ g.salt) (hlen : g.frames.length ≤ frames.length)
-    (hinc : (verify ⟨false, ⟨g.salt, g.frames.length, pages⟩, n.salt, frames, se, false⟩).snapshot = false) :
-    let out := verify ⟨false, ⟨g.salt, g.frames.length, pages⟩, n.salt, frames, se, false⟩
+    (hinc : (verify ⟨false, ⟨g.salt, g.frames.length, pages⟩, n.salt, frames, se, false, false⟩).snapshot = false) :
+    let out := verify ⟨false, ⟨g.salt, g.frames.length, pages⟩, n.salt, frames, se, false, false⟩
     continued (gs ++ [n]) out.idx (if out.useHdrSalt then n.salt else g.salt)
       = unseen (gs ++ [n]) (gs.length - 1) g.frames.length := by
   intro out
@@ -186,6 +189,14 @@ theorem running_own_checkpoint_sound (gs : List Gen) (g n : Gen) (hlast : gs.get
     rw [List.drop_append_of_le_length (by omega), this]; rfl
   simp [continued, unseen, hdropc]
 
+/-- **A non-PASSIVE checkpoint that ran but whose follow-up failed forces a snapshot.** Such a
+    checkpoint has no write barrier: it may have moved transactions into the database file (and
+    TRUNCATE may have discarded their frames) that were never copied.  Whatever the WAL looks
+    like afterwards, verify re-bases the replica. -/
+theorem checkpoint_unresolved_forces_snapshot (i : VIn) (hu : i.unresolved = true) : (verify i).snapshot = true := by
+  unfold verify
+  by_cases hp : i.posZero = true <;> simp [hp, hu]
+
 /-! ### Finding F2 (repaired): what the missing `fresh` test allowed
 
 World: generation A (salt 1) with 4 frames, litestream replicated 3 of them and
@@ -193,7 +204,7 @@ stopped; the application wrote the 4th frame, checkpointed, restarted the WAL
 (generation B, salt 2, one frame).  The old code continued from B's header and
 lost frame 4 of A. -/
 def f2World : List Gen := [⟨1, [(2, 10), (3, 11), (4, 12), (5, 99)]⟩, ⟨2, [(2, 20)]⟩]
-def f2In : VIn := ⟨false, ⟨1, 3, [(2, 10), (3, 11), (4, 12)]⟩, 2, overlay f2World, false, true⟩
+def f2In : VIn := ⟨false, ⟨1, 3, [(2, 10), (3, 11), (4, 12)]⟩, 2, overlay f2World, false, true, false⟩
 
 theorem f2_old_code_continued : (verifyBeforeFix f2In).snapshot = false := by decide
 theorem f2_old_code_lost_frames :
@@ -224,7 +235,7 @@ theorem f3_runtime_reset_breaks_both : ¬ (5 < 0 + 1) ∧ replicaSyncOk 1 5 ≠ 
 /-! ### Non-vacuity -/
 example : SaltsDistinct f2World := by unfold SaltsDistinct f2World; decide
 example : (verify ⟨false, ⟨1, 3, [(2, 10), (3, 11), (4, 12)]⟩, 1,
-    [⟨1, 2, 10⟩, ⟨1, 3, 11⟩, ⟨1, 4, 12⟩, ⟨1, 5, 99⟩], false, true⟩) = ⟨false, 3, false, false, .none⟩ := by decide
+    [⟨1, 2, 10⟩, ⟨1, 3, 11⟩, ⟨1, 4, 12⟩, ⟨1, 5, 99⟩], false, true, false⟩) = ⟨false, 3, false, false, .none⟩ := by decide
 
 end C04
 end Litestream
